@@ -83,7 +83,9 @@ func jsonMarshal(e *Engine, st *State, args []Value, depth int, pos string, k fu
 					nilT = obj.NilT
 				}
 				e.needXattr = true
-				k(st, VTuple{[]Value{sym(App(SBytes, "xmarshal", obj.Arr, nilT)), VNil{}}})
+				xm := App(SBytes, "xmarshal", obj.Arr, nilT)
+				e.xmarshalFacts(st, xm, obj.Arr, nilT)
+				k(st, VTuple{[]Value{sym(xm), VNil{}}})
 				return
 			}
 		}
@@ -92,7 +94,9 @@ func jsonMarshal(e *Engine, st *State, args []Value, depth int, pos string, k fu
 				if _, vs, absent, ok := mapSorts(mt); ok && vs == SBytes {
 					e.needXattr = true
 					empty := mkT(fmt.Sprintf("((as const (Array Str Bytes)) %s)", absent.S), SXMap)
-					k(st, VTuple{[]Value{sym(App(SBytes, "xmarshal", empty, TTrue)), VNil{}}})
+					xm := App(SBytes, "xmarshal", empty, TTrue)
+					e.xmarshalFacts(st, xm, empty, TTrue)
+					k(st, VTuple{[]Value{sym(xm), VNil{}}})
 					return
 				}
 			}
@@ -132,6 +136,7 @@ func jsonUnmarshal(e *Engine, st *State, args []Value, depth int, pos string, k 
 			obj := &MapObj{Typ: mt, KeySort: ks, ValSort: vs, Absent: absent}
 			obj.Arr = App(SXMap, "xmap", data.T)
 			obj.NilT = App(SBool, "xmapnil", data.T)
+			st.fact(Implies(obj.NilT, Eq(obj.Arr, constArr(SStr, SBytes, absent))))
 			cell := e.newCell(st, obj)
 			e.store(st, p, VMap{cell})
 			k(st, VNil{})
@@ -319,4 +324,14 @@ func sqlRowsErr(e *Engine, st *State, args []Value, depth int, pos string, k fun
 
 func sqlRowsColumns(e *Engine, st *State, args []Value, depth int, pos string, k func(*State, Value)) {
 	k(st, VTuple{[]Value{VUnknown{nil, "columns"}, VNil{}}})
+}
+
+// xmarshalFacts: instances of A-JSON for a marshalled xattr map.
+func (e *Engine) xmarshalFacts(st *State, xm, m, nilT Term) {
+	empty := constArr(SStr, SBytes, mkT("NOX", SBytes))
+	st.fact(Not(Eq(xm, nullB)))
+	st.fact(App(SBool, "xok", xm))
+	st.fact(Gt(App(SInt, "b.len", xm), IntLit(0)))
+	st.fact(Implies(Not(nilT), And(Eq(App(SXMap, "xmap", xm), m), Not(App(SBool, "xmapnil", xm)))))
+	st.fact(Implies(nilT, And(Eq(App(SXMap, "xmap", xm), empty), App(SBool, "xmapnil", xm))))
 }
